@@ -84,8 +84,105 @@ Proof.
   (destruct (1 <=? rest); cbn [andb]; [destruct (Nat.leb_spec (off mod 2) proc); [assumption|]|]); lia.
 Qed.
 
+(* ---------- running out of gap inside the zeros a block implies ---------- *)
+(* the loop stops with MissingBuffer only at the end of a block's data, with the next byte in
+   view: [j] of the zeros that byte asks for have been written, strictly fewer than needed *)
+Lemma dec_loop_mb v : forall inp F code pos proc out cons,
+  hon v F out code pos ->
+  let r := dec_loop v false inp code pos proc out cons in
+  lr r = DErr MissingBuffer ->
+  exists base j next rest',
+    hon v (F ++ firstn (lcons r - cons) inp) base (lcode r) (len_data v (lcode r)) /\
+    lout r = base ++ zeros j /\ lpos r = len_data v (lcode r) + j /\ lproc r = 0 /\
+    skipn (lcons r - cons) inp = next :: rest' /\ j < len_zero v (lcode r) next.
+Proof.
+  induction inp as [|b rest IH]; intros F code pos proc out cons Hh.
+  - cbn [dec_loop]. destruct (pos <? len_data v code); cbn [lr]; discriminate.
+  - pose proof Hh as (bs & d & Hbs & Hd & HF & Hl & Hp & H1 & Hm).
+    cbn [dec_loop].
+    destruct (Nat.ltb_spec pos (len_data v code)) as [Hlt|Hge].
+    + destruct (bz b) eqn:Hb; [cbn [lr]; discriminate|].
+      destruct (Nat.eqb_spec proc 0); [cbn [lr]; discriminate|].
+      assert (Hh' : hon v (F ++ [b]) (out ++ [b]) code (S pos)).
+      { exists bs, (d ++ [b]). split; [assumption|]. split.
+        - rewrite nozero_app, Hd. cbn. rewrite Hb. reflexivity.
+        - split; [rewrite HF, <- app_assoc; reflexivity|]. split; [rewrite app_length; cbn; lia|].
+          split; [lia|]. split; [assumption|]. rewrite Hm, <- !app_assoc. reflexivity. }
+      specialize (IH (F ++ [b]) code (S pos) proc (out ++ [b]) (S cons) Hh').
+      pose proof (dec_loop_gap v false rest code (S pos) proc (out ++ [b]) (S cons)) as (a & _ & G1 & G2 & _).
+      cbn zeta in *.
+      set (r := dec_loop v false rest code (S pos) proc (out ++ [b]) (S cons)) in *.
+      intros Hr. specialize (IH Hr).
+      replace (lcons r - cons) with (S (lcons r - S cons)) by lia. cbn [firstn skipn].
+      replace (F ++ b :: firstn (lcons r - S cons) rest) with ((F ++ [b]) ++ firstn (lcons r - S cons) rest)
+        by (rewrite <- app_assoc; reflexivity).
+      exact IH.
+    + assert (Hpn : pos = len_data v code) by lia.
+      set (k := len_data v code + len_zero v code b - pos).
+      destruct (Nat.ltb_spec proc k) as [Hshort|Hok].
+      * cbn [lr lout lcons lproc lcode lpos]. intros _.
+        exists out, proc, b, rest. rewrite Nat.sub_diag. cbn [firstn skipn]. rewrite app_nil_r.
+        split; [rewrite <- Hpn; exact Hh|]. split; [reflexivity|]. split; [lia|]. split; [reflexivity|].
+        split; [reflexivity|]. unfold k in Hshort. lia.
+      * destruct (bz b) eqn:Hb; [cbn [lr]; discriminate|].
+        assert (Hk : k = zeros_after v code).
+        { unfold k. rewrite (len_zero_nz v code b Hb). lia. }
+        assert (Hh' : hon v (F ++ [b]) (out ++ zeros k) (bn b) 0).
+        { exists (bs ++ [(code, d)]), []. split.
+          - apply Forall_app. split; [assumption|]. constructor; [|constructor].
+            unfold block_ok. cbn [fst snd]. repeat split; try assumption; lia.
+          - split; [reflexivity|]. split.
+            + rewrite flat_snoc, HF, nb_bn, <- app_assoc. reflexivity.
+            + split; [reflexivity|]. split; [lia|]. split; [apply bn_pos; assumption|].
+              rewrite dec_closed_snoc, Hm, Hk, app_nil_r, <- !app_assoc. reflexivity. }
+        specialize (IH (F ++ [b]) (bn b) 0 (proc - k + 1) (out ++ zeros k) (S cons) Hh').
+        pose proof (dec_loop_gap v false rest (bn b) 0 (proc - k + 1) (out ++ zeros k) (S cons)) as (a & _ & G1 & G2 & _).
+        cbn zeta in *.
+        set (r := dec_loop v false rest (bn b) 0 (proc - k + 1) (out ++ zeros k) (S cons)) in *.
+        intros Hr. specialize (IH Hr).
+        replace (lcons r - cons) with (S (lcons r - S cons)) by lia. cbn [firstn skipn].
+        replace (F ++ b :: firstn (lcons r - S cons) rest) with ((F ++ [b]) ++ firstn (lcons r - S cons) rest)
+          by (rewrite <- app_assoc; reflexivity).
+        exact IH.
+Qed.
+
+(* resuming after [j] of the implied zeros were written = resuming before them with [j] more gap *)
+Lemma dec_loop_partial_zeros v next rest code j proc cons :
+  j <= len_zero v code next ->
+  let n := len_data v code in
+  let r := dec_loop v false (next :: rest) code (n + j) proc [] cons in
+  let rv := dec_loop v false (next :: rest) code n (proc + j) [] cons in
+  lr rv = lr r /\ lout rv = zeros j ++ lout r /\ lcons rv = lcons r /\ lproc rv = lproc r /\
+  lcode rv = lcode r /\ lpos rv = lpos r.
+Proof.
+  intros Hj n r rv. subst r rv. cbn [dec_loop]. fold n.
+  destruct (Nat.ltb_spec (n + j) n); [lia|]. destruct (Nat.ltb_spec n n); [lia|].
+  set (lz := len_zero v code next) in *.
+  replace (n + lz - (n + j)) with (lz - j) by lia. replace (n + lz - n) with lz by lia.
+  destruct (Nat.ltb_spec proc (lz - j)); destruct (Nat.ltb_spec (proc + j) lz); try lia.
+  - cbn [lr lout lcons lproc lcode lpos app]. rewrite (Nat.add_comm proc j), zeros_app.
+    repeat split; try reflexivity; lia.
+  - destruct (bz next).
+    + cbn [lr lout lcons lproc lcode lpos app].
+      rewrite <- zeros_app. replace (j + (lz - j)) with lz by lia.
+      repeat split; try reflexivity. lia.
+    + replace (proc + j - lz + 1) with (proc - (lz - j) + 1) by lia.
+      rewrite (dec_loop_out v false rest (bn next) 0 (proc - (lz - j) + 1) ([] ++ zeros lz) (S cons)).
+      rewrite (dec_loop_out v false rest (bn next) 0 (proc - (lz - j) + 1) ([] ++ zeros (lz - j)) (S cons)).
+      unfold add_out. cbn [lr lout lcons lproc lcode lpos app].
+      rewrite app_assoc, <- zeros_app. replace (j + (lz - j)) with lz by lia.
+      repeat split; reflexivity.
+Qed.
+
 (* ---------- the state between calls ---------- *)
 Definition decoded (st : dstate) (buf : list byte) : list byte := firstn (dlen st) (skipn (dpos st) buf).
+
+(* the open block of a suspended decoder: inside the data part ([hon]), or behind it with [j] of
+   the zeros asked for by the next byte [next] already written (after MissingBuffer) *)
+Definition honz (v : variant) (F dec : list byte) (code pos : nat) (unread : list byte) : Prop :=
+  (pos <= len_data v code /\ hon v F dec code pos) \/
+  (exists base j next rest', 1 <= j /\ pos = len_data v code + j /\ dec = base ++ zeros j /\
+     unread = next :: rest' /\ j < len_zero v code next /\ hon v F base code (len_data v code)).
 
 (* [F]: the bytes of the current frame consumed so far *)
 Definition cinv (v : variant) (F : list byte) (st : dstate) (buf : list byte) : Prop :=
@@ -93,7 +190,7 @@ Definition cinv (v : variant) (F : list byte) (st : dstate) (buf : list byte) : 
   match dmsg st with
   | Some c => c = dlen st /\ dcode st = 0 /\ F = []
   | None => if dcode st =? 0 then dlen st = 0 /\ F = []
-            else hon v F (decoded st buf) (dcode st) (dpos8 st)
+            else honz v F (decoded st buf) (dcode st) (dpos8 st) (skipn (dcurr st) buf)
   end.
 
 (* what one call establishes; [used] = the input bytes it consumed *)
@@ -106,6 +203,11 @@ Definition call_post (v : variant) (F : list byte) (curr : nat) (buf : list byte
               F ++ firstn k unread = body ++ [0%N] /\
               sdec v body = Some (decoded st' buf') /\ cinv v [] st' buf' /\ dmsg st' = Some (dlen st')
   | DMore => exists k, k <= length unread /\ dcurr st' = curr + k /\
+              length buf' = length buf /\ skipn (dcurr st') buf' = skipn (dcurr st') buf /\
+              cinv v (F ++ firstn k unread) st' buf' /\ dmsg st' = None
+  | DErr MissingBuffer =>
+            (* out of gap: the state stays valid; the caller makes room and calls again *)
+            exists k, k <= length unread /\ dcurr st' = curr + k /\
               length buf' = length buf /\ skipn (dcurr st') buf' = skipn (dcurr st') buf /\
               cinv v (F ++ firstn k unread) st' buf' /\ dmsg st' = None
   | _ => True
@@ -200,10 +302,29 @@ Proof.
     exists k. split; [exact Hk|]. split; [exact Hcurr'|]. split; [exact Hlen'|]. split; [exact Hsk'|].
     split; [|reflexivity].
     unfold cinv. cbn [dpos dlen dcurr dmsg dcode dpos8]. split; [unfold curr', mlen'; lia|]. split; [lia|].
-    destruct (hon_code_pos _ _ _ _ _ Hh) as [Hc1' _].
+    destruct (hon_code_pos _ _ _ _ _ Hh) as [Hc1' Hpl'].
     destruct (Nat.eqb_spec (lcode r) 0); [lia|].
-    unfold decoded. cbn [dlen dpos]. rewrite Hdec', Hused. exact Hh.
-  - split; [exact I|]. destruct e; try exact I.
+    unfold decoded. cbn [dlen dpos]. rewrite Hdec', Hused. left. split; assumption.
+  - destruct e; try (split; exact I).
+    2:{ (* out of gap inside the zeros of a block *)
+      split; [|exact I].
+      pose proof (dec_loop_mb v inp3 (F ++ pre) code pos (proc2 + c0) dec0 c0 Hhon) as Hmb.
+      rewrite (dec_loop_out v false inp3 code pos (proc2 + c0) dec0 c0) in Hmb. fold r in Hmb.
+      unfold add_out in Hmb. cbn [lr lout lcons lproc lcode lpos] in Hmb. specialize (Hmb Elr).
+      destruct Hmb as (base & j & next & rest' & Hhb & Hob & Hpb & Hprb & Hsb & Hjb). fold k in Hhb, Hsb.
+      exists k. split; [exact Hk|]. split; [exact Hcurr'|]. split; [exact Hlen'|]. split; [exact Hsk'|].
+      split; [|reflexivity].
+      unfold cinv. cbn [dpos dlen dcurr dmsg dcode dpos8]. split; [unfold curr', mlen'; lia|]. split; [lia|].
+      destruct (hon_code_pos _ _ _ _ _ Hhb) as [Hc1' _].
+      destruct (Nat.eqb_spec (lcode r) 0); [lia|].
+      unfold decoded. cbn [dlen dpos]. rewrite Hdec', Hused, Hob, Hpb.
+      destruct (Nat.eq_dec j 0) as [->|Hj0].
+      - left. cbn [zeros repeat]. rewrite app_nil_r, Nat.add_0_r. split; [lia|exact Hhb].
+      - right. exists base, j, next, rest'. split; [lia|]. split; [reflexivity|]. split; [reflexivity|].
+        split; [|split; assumption].
+        rewrite Hsk', Hcurr'. replace (skipn (curr + k) buf) with (skipn k (skipn curr buf)) by apply skipn_skipn'.
+        rewrite Hun. rewrite skipn_app. fold c0. rewrite (skipn_all2 pre) by (fold c0; lia). cbn [app]. exact Hsb. }
+    split; [exact I|].
     intros _. destruct Hh as (Hh & Hlt & (rest & Hz)).
     assert (Hk2 : k - c0 < length inp3).
     { assert (length (skipn (k - c0) inp3) = S (length rest)) by (rewrite Hz; reflexivity).
@@ -293,11 +414,56 @@ Proof.
       destruct (Nat.eqb_spec (dcode st) 0); [contradiction|].
       rewrite firstn_all2 by (rewrite skipn_length; lia).
       destruct (Nat.eqb_spec (dcode st) 0); [contradiction|].
-      pose proof (loop_result_post v F buf (dpos st) (dlen st) proc0 [] (skipn (dcurr st) buf) (dcode st) (dpos8 st)) as HL.
-      lazy zeta in HL. rewrite Hcurr in HL. specialize (HL ltac:(lia) eq_refl ltac:(cbn; lia)).
-      rewrite app_nil_r in HL. specialize (HL Hm). cbn [length] in HL. rewrite Nat.add_0_r in HL.
       rewrite Em.
-      destruct (lr (dec_loop v false (skipn (dcurr st) buf) (dcode st) (dpos8 st) proc0 [] 0)); exact HL.
+      destruct Hm as [[Hple Hhon]|(base & j & next & rest' & Hj1 & Hpos & Hdec & Hun & Hjl & Hhb)].
+      * pose proof (loop_result_post v F buf (dpos st) (dlen st) proc0 [] (skipn (dcurr st) buf) (dcode st) (dpos8 st)) as HL.
+        lazy zeta in HL. rewrite Hcurr in HL. specialize (HL ltac:(lia) eq_refl ltac:(cbn; lia)).
+        rewrite app_nil_r in HL. specialize (HL Hhon). cbn [length] in HL. rewrite Nat.add_0_r in HL.
+        destruct (lr (dec_loop v false (skipn (dcurr st) buf) (dcode st) (dpos8 st) proc0 [] 0)); exact HL.
+      * (* resumed behind the data part with j zeros already written: same as resuming before
+           them with j more bytes of gap *)
+        assert (Hdl : length (decoded st buf) = dlen st)
+          by (unfold decoded; rewrite firstn_length, skipn_length; unfold dl in *; lia).
+        assert (Hbl : dlen st = length base + j) by (rewrite <- Hdl, Hdec, app_length, zeros_length; reflexivity).
+        assert (Hbase : firstn (dlen st - j) (skipn (dpos st) buf) = base).
+        { replace (dlen st - j) with (length base) by lia.
+          replace (firstn (length base) (skipn (dpos st) buf)) with (firstn (length base) (decoded st buf)).
+          - rewrite Hdec. apply firstn_app_exact.
+          - unfold decoded. rewrite firstn_firstn. f_equal. lia. }
+        assert (Hz : firstn j (skipn (dpos st + dlen st - j) buf) = zeros j).
+        { replace (firstn j (skipn (dpos st + dlen st - j) buf)) with (skipn (length base) (decoded st buf)).
+          - rewrite Hdec. apply skipn_app_exact.
+          - unfold decoded. apply (nth_ext' _ _ 0%N).
+            + rewrite skipn_length, !firstn_length, !skipn_length. unfold dl in *. lia.
+            + intros i Hi. rewrite skipn_length, firstn_length, skipn_length in Hi.
+              rewrite nth_skipn', nth_firstn' by (unfold dl in *; lia).
+              rewrite nth_firstn' by (unfold dl in *; lia). rewrite !nth_skipn'. f_equal. lia. }
+        pose proof (loop_result_post v F buf (dpos st) (dlen st - j) (proc0 + j) [] (skipn (dcurr st) buf) (dcode st)
+                      (len_data v (dcode st))) as HL.
+        lazy zeta in HL.
+        replace (dpos st + (dlen st - j) + (proc0 + j)) with (dcurr st) in HL by lia.
+        specialize (HL ltac:(lia) eq_refl ltac:(cbn; lia)).
+        rewrite app_nil_r, Hbase in HL. specialize (HL Hhb). cbn [length] in HL. rewrite Nat.add_0_r in HL.
+        pose proof (dec_loop_partial_zeros v next rest' (dcode st) j proc0 0 ltac:(lia)) as Hpz. cbn zeta in Hpz.
+        rewrite <- Hun, <- Hpos in Hpz.
+        set (r := dec_loop v false (skipn (dcurr st) buf) (dcode st) (dpos8 st) proc0 [] 0) in *.
+        set (rv := dec_loop v false (skipn (dcurr st) buf) (dcode st) (len_data v (dcode st)) (proc0 + j) [] 0) in *.
+        destruct Hpz as (E1 & E2 & E3 & E4 & E5 & E6).
+        assert (Ebuf : splice buf (dpos st + (dlen st - j)) (lout rv) = splice buf (dpos st + dlen st) (lout r)).
+        { rewrite E2. unfold splice. rewrite app_length, zeros_length.
+          replace (dpos st + (dlen st - j) + (j + length (lout r))) with (dpos st + dlen st + length (lout r)) by lia.
+          rewrite !app_assoc. f_equal. f_equal.
+          rewrite <- (firstn_skipn (dpos st + dlen st - j) (firstn (dpos st + dlen st) buf)).
+          rewrite firstn_firstn. replace (Nat.min (dpos st + dlen st - j) (dpos st + dlen st)) with (dpos st + (dlen st - j)) by lia.
+          f_equal. rewrite <- Hz.
+          apply (nth_ext' _ _ 0%N).
+          - rewrite skipn_length, !firstn_length, skipn_length. unfold dl in *. lia.
+          - intros i Hi. rewrite firstn_length, skipn_length in Hi.
+            rewrite nth_firstn' by lia. rewrite !nth_skipn'. rewrite nth_firstn' by (unfold dl in *; lia). reflexivity. }
+        assert (Elen : dlen st - j + length (lout rv) = dlen st + length (lout r))
+          by (rewrite E2, app_length, zeros_length; lia).
+        rewrite E1, E4, E5, E6, Ebuf, Elen in HL.
+        destruct (lr r); exact HL.
 Qed.
 
 Lemma firstn_S_nth {A} (l : list A) k d : k < length l -> firstn (S k) l = firstn k l ++ [nth k l d].
@@ -317,7 +483,10 @@ Proof.
   destruct (inl v) eqn:Hinl; [|exact Hcp].
   destruct r0 as [| |e|]; try exact Hcp. destruct e; try exact Hcp.
   destruct (Nat.eqb_spec (dcode st0) 0) as [|Hcode]; [exact Hcp|].
-  destruct (Nat.leb_spec (length buf0) (dpos st0 + dlen st0)) as [|Hroom]; [exact I|].
+  destruct (Nat.leb_spec (length buf0) (dpos st0 + dlen st0)) as [Hno|Hroom].
+  { (* cannot happen: the zero that stopped the loop is still unread behind the decoded bytes *)
+    exfalso. pose proof (Hmd Hcode) as X. cbn zeta in X.
+    destruct X as (k & Hk & Hcur & Hlen & _ & Hgeo & _). rewrite skipn_length in Hk. lia. }
   specialize (Hmd Hcode). cbn zeta in Hmd.
   destruct Hmd as (k & Hk & Hcur & Hlen & Hsk & Hgeo & Hmsg & Hz & Hh & Hlt).
   set (unread := skipn (dcurr st) buf) in *.
@@ -345,30 +514,40 @@ Proof.
   split; [rewrite splice_length by (cbn [length]; lia); unfold unread in Hk; rewrite skipn_length in Hk; lia|]. auto.
 Qed.
 
+(* the caller makes room: everything outside the decoded bytes and the unread input may be
+   replaced (new prefix, new gap of any size) *)
+Definition st_rebuf (st : dstate) (npre ngap : nat) : dstate :=
+  mkd (dcode st) (dpos8 st) (npre + dlen st + ngap) npre (dlen st) (dmsg st).
+Definition buf_rebuf (st : dstate) (buf pre gap : list byte) : list byte :=
+  pre ++ decoded st buf ++ gap ++ skipn (dcurr st) buf.
+
 (* ---------- histories of calls on a growing buffer ---------- *)
 (* HCall: one decoder call (any fragment geometry / alignment residues); HFeed: the caller
    appends received bytes behind the unread input *)
-Inductive hop := HCall (frags res : list nat) | HFeed (more : list byte).
+Inductive hop := HCall (frags res : list nat) | HFeed (more : list byte) | HRebuf (pre gap : list byte).
 
 Record hs := mkhs { hs_st : dstate; hs_buf : list byte; hs_msgs : list (list byte); hs_stop : bool }.
 
-(* an error ends the history: nothing is claimed about later calls *)
+(* an error other than MissingBuffer ends the history: nothing is claimed about later calls;
+   after MissingBuffer the caller provides room (HRebuf) and calls again *)
 Definition hstep (v : variant) (s : hs) (o : hop) : hs :=
   if hs_stop s then s else
   match o with
   | HFeed more => mkhs (hs_st s) (hs_buf s ++ more) (hs_msgs s) false
+  | HRebuf pre gap =>
+    mkhs (st_rebuf (hs_st s) (length pre) (length gap)) (buf_rebuf (hs_st s) (hs_buf s) pre gap) (hs_msgs s) false
   | HCall frags res =>
     let '(r, st', buf') := dec_call_res v (hs_st s) (hs_buf s) frags res false in
     match r with
     | DMsg => mkhs st' buf' (hs_msgs s ++ [decoded st' buf']) false
-    | DMore => mkhs st' buf' (hs_msgs s) false
+    | DMore | DErr MissingBuffer => mkhs st' buf' (hs_msgs s) false
     | _ => mkhs st' buf' (hs_msgs s) true
     end
   end.
 
 Definition hrun (v : variant) (s : hs) (ops : list hop) : hs := fold_left (hstep v) ops s.
 
-Definition fed (o : hop) : list byte := match o with HFeed more => more | HCall _ _ => [] end.
+Definition fed (o : hop) : list byte := match o with HFeed more => more | _ => [] end.
 
 (* [I]: all input handed over so far (the unread bytes of the start state and everything fed) *)
 Definition hinv (v : variant) (I : list byte) (s : hs) : Prop :=
@@ -386,7 +565,29 @@ Lemma cinv_feed v F st buf more : cinv v F st buf -> cinv v F st (buf ++ more).
 Proof.
   intros (G1 & G2 & Hm). split; [assumption|]. split; [rewrite app_length; lia|].
   destruct (dmsg st); [assumption|]. destruct (dcode st =? 0); [assumption|].
-  rewrite decoded_app by lia. assumption.
+  rewrite decoded_app by lia. rewrite skipn_app. replace (dcurr st - length buf) with 0 by lia. cbn [skipn].
+  destruct Hm as [Hm|(base & j & next & rest' & H1 & H2 & H3 & H4 & H5 & H6)]; [left; assumption|].
+  right. exists base, j, next, (rest' ++ more). rewrite H4. repeat split; assumption.
+Qed.
+
+Lemma cinv_rebuf v F st buf pre gap : cinv v F st buf ->
+  cinv v F (st_rebuf st (length pre) (length gap)) (buf_rebuf st buf pre gap) /\
+  skipn (dcurr (st_rebuf st (length pre) (length gap))) (buf_rebuf st buf pre gap) = skipn (dcurr st) buf.
+Proof.
+  intros (G1 & G2 & Hm).
+  assert (Hdl : length (decoded st buf) = dlen st) by (unfold decoded; rewrite firstn_length, skipn_length; lia).
+  assert (Hun : skipn (length pre + dlen st + length gap) (buf_rebuf st buf pre gap) = skipn (dcurr st) buf).
+  { unfold buf_rebuf. rewrite !app_assoc. rewrite skipn_app.
+    rewrite skipn_all2 by (rewrite !app_length; lia). rewrite !app_length, Hdl.
+    replace (length pre + dlen st + length gap - (length pre + dlen st + length gap)) with 0 by lia. reflexivity. }
+  assert (Hde : decoded (st_rebuf st (length pre) (length gap)) (buf_rebuf st buf pre gap) = decoded st buf).
+  { unfold decoded at 1, st_rebuf, buf_rebuf. cbn [dlen dpos]. rewrite skipn_app, Nat.sub_diag, skipn_all. cbn [skipn app].
+    rewrite firstn_app, Hdl, Nat.sub_diag. cbn [firstn]. rewrite app_nil_r. apply firstn_all2. lia. }
+  split; [|exact Hun].
+  unfold cinv. cbn [st_rebuf dpos dlen dcurr dmsg dcode dpos8]. split; [lia|].
+  split; [unfold buf_rebuf; rewrite !app_length, Hdl; lia|].
+  destruct (dmsg st); [assumption|]. destruct (dcode st =? 0); [assumption|].
+  fold (st_rebuf st (length pre) (length gap)). rewrite Hde, Hun. assumption.
 Qed.
 
 Lemma hstep_inv v I s o : hinv v I s -> hinv v (I ++ fed o) (hstep v s o).
@@ -394,7 +595,7 @@ Proof.
   intros (C & F & Hf & Hs). unfold hstep. destruct (hs_stop s) eqn:Est.
   - exists C, F. split; [assumption|]. rewrite Est. destruct Hs as (rest & ->).
     exists (rest ++ fed o). rewrite app_assoc. reflexivity.
-  - destruct Hs as [HI Hc]. destruct o as [frags res|more]; cbn [fed].
+  - destruct Hs as [HI Hc]. destruct o as [frags res|more|pre gap]; cbn [fed].
     + rewrite app_nil_r.
       pose proof (dec_call_honest v F (hs_st s) (hs_buf s) frags res Hc) as Hp.
       destruct (dec_call_res v (hs_st s) (hs_buf s) frags res false) as [[r st'] buf'].
@@ -405,22 +606,31 @@ Proof.
       { intros k Hk Hcur Hsk. rewrite Hsk, Hcur.
         replace (skipn (dcurr (hs_st s) + k) (hs_buf s)) with (skipn k unread) by (unfold unread; apply skipn_skipn').
         symmetry. apply firstn_skipn. }
+      assert (Hcont : (exists k, k <= length unread /\ dcurr st' = dcurr (hs_st s) + k /\
+                         length buf' = length (hs_buf s) /\ skipn (dcurr st') buf' = skipn (dcurr st') (hs_buf s) /\
+                         cinv v (F ++ firstn k unread) st' buf' /\ dmsg st' = None) ->
+                      hinv v I (mkhs st' buf' (hs_msgs s) false)).
+      { intros (k & Hk & Hcur & Hlen & Hsk & Hc' & _).
+        exists C, (F ++ firstn k unread). cbn [hs_msgs hs_stop hs_st hs_buf].
+        split; [assumption|]. split; [|assumption].
+        rewrite HI, (Hsplit k Hk Hcur Hsk) at 1. rewrite <- !app_assoc. reflexivity. }
       destruct r as [| |e|]; unfold call_post in Hp; fold unread in Hp.
       * destruct Hp as (k & body & Hk & Hcur & Hlen & Hsk & Hb & Hsd & Hc' & Hm').
         exists (C ++ body ++ [0%N]), []. cbn [hs_msgs hs_stop hs_st hs_buf].
         split; [apply frames_of_snoc; [assumption|assumption|apply (sdec_nozero v body _ Hsd)]|].
         split; [|assumption]. cbn [app].
         rewrite HI, (Hsplit k Hk Hcur Hsk). rewrite (app_assoc F), Hb. rewrite <- !app_assoc. reflexivity.
-      * destruct Hp as (k & Hk & Hcur & Hlen & Hsk & Hc' & _).
-        exists C, (F ++ firstn k unread). cbn [hs_msgs hs_stop hs_st hs_buf].
-        split; [assumption|]. split; [|assumption].
-        rewrite HI, (Hsplit k Hk Hcur Hsk) at 1. rewrite <- !app_assoc. reflexivity.
-      * exists C, F. cbn [hs_msgs hs_stop]. split; [assumption|]. eexists. exact HI.
+      * apply Hcont. exact Hp.
+      * destruct e; try (exists C, F; cbn [hs_msgs hs_stop]; split; [assumption|]; eexists; exact HI).
+        apply Hcont. exact Hp.
       * exists C, F. cbn [hs_msgs hs_stop]. split; [assumption|]. eexists. exact HI.
     + exists C, F. cbn [hs_msgs hs_stop hs_st hs_buf]. split; [assumption|].
       destruct Hc as (G1 & G2 & Hm). split; [|apply cinv_feed; repeat split; assumption].
       rewrite skipn_app. replace (dcurr (hs_st s) - length (hs_buf s)) with 0 by lia. cbn [skipn].
       rewrite HI, <- !app_assoc. reflexivity.
+    + rewrite app_nil_r. exists C, F. cbn [hs_msgs hs_stop hs_st hs_buf]. split; [assumption|].
+      destruct (cinv_rebuf v F (hs_st s) (hs_buf s) pre gap Hc) as [Hc' Hun]. split; [|exact Hc'].
+      rewrite Hun. exact HI.
 Qed.
 
 Theorem hrun_inv v : forall ops I s, hinv v I s -> hinv v (I ++ concat (map fed ops)) (hrun v s ops).
